@@ -1,4 +1,5 @@
 import Props.Defs
+import Props.C03
 import Props.C12
 import Props.C13
 import Props.C14
